@@ -255,29 +255,29 @@ theorem hankStacks_long (rs : Int → K) (Y Yref : Mat K) (p : Nat) (hN : 2 * p 
       (scale (rs ((Y.c : ℤ) - p - ((p : ℤ) + 1))) (colSlicePy Y ((p : ℤ) + 1 + 1 + (0 : ℕ)) ((Y.c : ℤ) - p - ((p : ℤ) + 1) + ((p : ℤ) + 1) + (0 : ℕ)))).c) = true := by
     rw [List.all_eq_true]; intro i hi
     simp only [List.mem_range] at hi
-    simp only [scale, colSlicePy, pyIdx, beq_iff_eq]
+    simp only [scale, colSlicePy, pySliceIdx, beq_iff_eq]
     split_ifs <;> omega
   have hp : (List.range (p + 1)).all (fun j =>
       (scale (rs ((Y.c : ℤ) - p - ((p : ℤ) + 1))) (colSlicePy Yref ((p : ℤ) + 1 - j) ((Y.c : ℤ) - p - ((p : ℤ) + 1) + ((p : ℤ) + 1) - 1 - j))).c ==
       (scale (rs ((Y.c : ℤ) - p - ((p : ℤ) + 1))) (colSlicePy Yref ((p : ℤ) + 1 - (0 : ℕ)) ((Y.c : ℤ) - p - ((p : ℤ) + 1) + ((p : ℤ) + 1) - 1 - (0 : ℕ)))).c) = true := by
     rw [List.all_eq_true]; intro j hj
     simp only [List.mem_range] at hj
-    simp only [scale, colSlicePy, pyIdx, beq_iff_eq, hc]
+    simp only [scale, colSlicePy, pySliceIdx, beq_iff_eq, hc]
     split_ifs <;> omega
   unfold hankStacks vstackChk
   simp only [hN0, if_false, hf, hp, if_true, bind, Except.bind, pure, Except.pure]
   refine ⟨_, _, rfl, ?_⟩
   · refine ⟨by simp [vstackN, scale, colSlicePy], by simp [vstackN, scale, colSlicePy], ?_, ?_, ?_, ?_⟩
-    · simp only [vstackN, scale, colSlicePy, pyIdx]; split_ifs <;> omega
-    · simp only [vstackN, scale, colSlicePy, pyIdx, hc]; split_ifs <;> omega
+    · simp only [vstackN, scale, colSlicePy, pySliceIdx]; split_ifs <;> omega
+    · simp only [vstackN, scale, colSlicePy, pySliceIdx, hc]; split_ifs <;> omega
     · intro i a t hi ha
       simp only [vstackN, scale, colSlicePy, blk_div i ha, blk_mod i ha, hNeq]
       congr 2
-      simp only [pyIdx]; split_ifs <;> omega
+      simp only [pySliceIdx]; split_ifs <;> omega
     · intro j b t hj hb
       simp only [vstackN, scale, colSlicePy, blk_div j hb, blk_mod j hb, hNeq]
       congr 2
-      simp only [pyIdx, hc]; split_ifs <;> omega
+      simp only [pySliceIdx, hc]; split_ifs <;> omega
 
 /-- whenever the `cov_mm` branch returns, `Hank = np.dot(Yf, Yp.T)` of the two stacks -/
 theorem buildHank_mm_hank (rs : Int → K) (sT : K) (qr : Mat K → Mat K) (Y Yref : Mat K) (br : Nat)
